@@ -10,7 +10,7 @@ ORACLE_RULE = ("C15b: purely recursive indicators appended one candle at a time 
                "with the independently computed window of the (resampled) stream after every append; the same for every manager of a Hexital with a "
                "Hexital-level lifespan (zero included) and members on several timeframes")
 ASSUMPTIONS = ["TZ=UTC for this check", "lifespan >= 0"]
-PARTIAL = 'window clause proved for every schedule, without and with a collapsing timeframe; readings clause proved for ALL 27 classes over every construction prefix and append schedule, on the base timeframe (C15b_leaf, C15b_FULL_holds, C15b_trees_FULL_holds, C15b_trees_look) AND on a collapsing timeframe without / with gap filling (C15b_trees_tf, C15b_trees_tf_fill: each popping append retains treeLook CLOSED buckets - counting the still-forming bucket as retained history makes the statement false, C15b_trees_tf_naive_false, replayed on the library). MEMBERS OF A HEXITAL (own timeframe or that of the Hexital, any Hexital timeframe, with / without fill): the member of the lifespan Hexital = the member of the same Hexital without lifespan minus the popped candles (C15b_member_look, C15b_member_tf, C15b_member_tf_fill), window clause window_member_tf. Heikin-Ashi managers alone and on a timeframe: C15b_trees_ha, C15b_trees_tf_ha (same retention hypotheses as without conversion). Open: Heikin-Ashi + fill + lifespan, Heikin-Ashi members of a Hexital: correspondence + oracle with an untrimmed twin at the tightest admissible window'
+PARTIAL = 'window clause proved for every schedule, without and with a collapsing timeframe; readings clause proved for ALL 27 classes over every construction prefix and append schedule, on the base timeframe (C15b_leaf, C15b_FULL_holds, C15b_trees_FULL_holds, C15b_trees_look) AND on a collapsing timeframe without / with gap filling (C15b_trees_tf, C15b_trees_tf_fill: each popping append retains treeLook CLOSED buckets - counting the still-forming bucket as retained history makes the statement false, C15b_trees_tf_naive_false, replayed on the library). MEMBERS OF A HEXITAL (own timeframe or that of the Hexital, any Hexital timeframe, with / without fill): the member of the lifespan Hexital = the member of the same Hexital without lifespan minus the popped candles (C15b_member_look, C15b_member_tf, C15b_member_tf_fill), window clause window_member_tf. Heikin-Ashi managers alone and on a timeframe: C15b_trees_ha, C15b_trees_tf_ha (same retention hypotheses as without conversion). Round 7: Heikin-Ashi + fill too (C15b_trees_tf_fill_ha) and Heikin-Ashi members of a Hexital (C15b_member_ha / _tf_ha / _tf_fill_ha): every manager combination is covered, standalone and as members: correspondence + oracle with an untrimmed twin at the tightest admissible window'
 _case = om.make_case(ID, tf="maybe", life=True)
 _case_fill = om.make_case(ID, tf=True, fill=True, life=True)
 
